@@ -159,6 +159,28 @@ def execute_chart(case, ctx):
             ctx.check(tuple(ax.get_xlim()) == (0.0, float(end)), "axis_ends_at_makespan_or_limit", lambda: f"{when}: x-limits {ax.get_xlim()}, expected (0, {end})")
             ticks = list(ax.get_xticks())
             ctx.check(bool(ticks) and ticks[-1] == end, "axis_ends_at_makespan_or_limit", lambda: f"{when}: last tick {ticks[-1] if ticks else None}, expected {end}")
+        if cfg["xlim"] is None and mk > 0:
+            # the same (possibly partial) schedule through the chart creator attached to the dispatcher, the way an
+            # environment renders mid-episode: no limit requested, so the time axis ends at the makespan
+            from job_shop_lib.visualization import GanttChartCreator
+
+            fig3 = None
+            with warnings.catch_warnings():
+                warnings.simplefilter("ignore")
+                try:
+                    fig3 = GanttChartCreator(d).plot_gantt_chart()
+                    ax3 = fig3.axes[0]
+                except Exception as e:  # noqa: BLE001
+                    ctx.fail("plot_raised", f"GanttChartCreator.plot_gantt_chart raised {short_exc(e)} on a schedule with {len(m.hist)} operations, makespan {mk}")
+            if fig3 is not None:
+                try:
+                    when3 = f"GanttChartCreator.plot_gantt_chart after {len(m.hist)} of {len(m.ops)} dispatches (current time {m.now()})"
+                    check_bars(ctx, ax3, m.hist, jobs, when3)
+                    ctx.check(tuple(ax3.get_xlim()) == (0.0, float(mk)), "axis_ends_at_makespan_or_limit", lambda: f"{when3}: x-limits {ax3.get_xlim()}, expected (0, {mk})")
+                    if m.now() < mk:
+                        ctx.probe("creator_chart_mid_episode")
+                finally:
+                    plt.close(fig3)
         ctx.event(0, "chart", len(m.hist), mk, h64(bars_of(ax)))
         ctx.states.add(h64((h64(cfg["instance"]["jobs"]), len(m.hist), "chart", xlim)))
         if any(h[3] == h[4] for h in m.hist):
